@@ -156,6 +156,24 @@ Section Apply.
   Definition apply := apply_gen true.
   Definition apply_unfixed := apply_gen false.
 
+  (* apply reads the config file twice: hashFile ([cfg_h]) and normalize
+     ([cfg_n]); an edit may fall between the two reads. The directory part is as
+     in [apply]. *)
+  Definition apply2 (s : rst) (cfg_h cfg_n : option str) (dir : files) (fails : nat) (give_up : bool) : rst * result :=
+    if has_cfg then
+      match cfg_h, cfg_n with
+      | Some ch, Some cn =>
+        match expand env tolerate cn with
+        | Some e =>
+          (* the rest of the pass sees hash [ch] and has written output [e] *)
+          let '(s', r) := apply s (Some ch) dir fails give_up in
+          (Rst (last_cfg s') (last_dir s') (last_names s') (force s') (Some e) (out_dir s'), r)
+        | None => (s, Result true false false 0)
+        end
+      | _, _ => (s, Result true false false 0)
+      end
+    else apply s cfg_h dir fails give_up.
+
   (* ---- the loop of Watch ----
      `for { select { case <-applyCtx.Done(): if ctx.Err() != nil { return } ; case <-r.watcher.notify: } ; ... r.apply(applyCtx) }`
      as a state machine over events: a debounced file-system notification, the
@@ -222,9 +240,15 @@ Definition corr_ok (c : case) : bool :=
 
 (* ---- the property's predicate on the implementation's own observables ---- *)
 
-(* the predicate keeps its own record of the last successfully reloaded content *)
+(* the predicate keeps its own record of the last successfully reloaded content
+   and of the outputs as they were at the last successful reload ([loaded]: what
+   the reloaded process is running) *)
+Definition outs_eqb (a b : option str * files) : bool :=
+  ostr_eqb (fst a) (fst b) && files_eqb (snd a) (snd b).
+
 Fixpoint pred_run (has_cfg tolerate : bool) (env : str -> option str)
-         (last_ok : option (option str * files)) (pending : bool) (steps : list step) : bool :=
+         (last_ok : option (option str * files)) (loaded : option (option str * files))
+         (pending : bool) (steps : list step) : bool :=
   match steps with
   | [] => true
   | ((cfg, dir), _, (err, oc, od, tried, succ, _)) :: r =>
@@ -232,13 +256,15 @@ Fixpoint pred_run (has_cfg tolerate : bool) (env : str -> option str)
       (* an apply that fails must have a reason: missing config file or an unset variable *)
       ((has_cfg && match cfg with None => true | Some c => match expand env tolerate c with None => true | _ => false end end)
        || existsb (fun f => match expand env tolerate (snd f) with None => true | _ => false end) dir)
-      && negb tried && pred_run has_cfg tolerate env last_ok pending r
+      && negb tried && pred_run has_cfg tolerate env last_ok loaded pending r
     else
       let cur := (if has_cfg then cfg else None, dir) in
       let same := match last_ok with
                   | Some (c0, d0) => ostr_eqb c0 (fst cur) && files_eqb d0 dir
                   | None => false
                   end in
+      let loaded' := if succ then Some (oc, od) else loaded in
+      let pending' := if tried then negb succ else pending in
       (* outputs equal the inputs with the environment substituted *)
       (if has_cfg then match cfg with Some c => ostr_eqb oc (expand env tolerate c) | None => false end else true)
       && forallb (fun f => ostr_eqb (lookup (fst f) od) (expand env tolerate (snd f))) dir
@@ -247,12 +273,14 @@ Fixpoint pred_run (has_cfg tolerate : bool) (env : str -> option str)
       (* reload exactly when the content changed since the last successful reload, or a failed reload is pending *)
       && Bool.eqb tried (pending || negb same)
       && (negb succ || tried)
-      && pred_run has_cfg tolerate env (if succ then Some cur else last_ok) (if tried then negb succ else pending) r
+      (* unless a reload is pending, the outputs are those the last successful reload loaded *)
+      && (pending' || match loaded' with Some l => outs_eqb l (oc, od) | None => false end)
+      && pred_run has_cfg tolerate env (if succ then Some cur else last_ok) loaded' pending' r
   end.
 
 Definition pred_ok (c : case) : bool :=
   match c with
-  | CReload has_cfg tolerate env steps => pred_run has_cfg tolerate (env_of env) None false steps
+  | CReload has_cfg tolerate env steps => pred_run has_cfg tolerate (env_of env) None None false steps
   | CWatch has_cfg tolerate env cfg dir oc od reloaded extra_calls returned =>
       let e := env_of env in
       (if has_cfg then match cfg with Some c => ostr_eqb oc (expand e tolerate c) | None => false end else true)
